@@ -74,9 +74,9 @@ Proof.
     + destruct (IH _ H) as (s' & I' & M'). exists s'. split; [right; exact I'|exact M'].
 Qed.
 
-Lemma xlat_operand_err_nz : forall T x64 virt avx op e, xlat_operand T x64 virt avx op = XErr e -> e <> E_Ok.
+Lemma xlat_operand_err_nz : forall T x64 virt iflags avx op e, xlat_operand T x64 virt iflags avx op = XErr e -> e <> E_Ok.
 Proof.
-  intros T x64 virt avx op e X. unfold xlat_operand in X.
+  intros T x64 virt iflags avx op e X. unfold xlat_operand in X.
   destruct op; cbv zeta in X;
   repeat (match type of X with
           | context [if ?c then _ else _] => destruct c
@@ -85,11 +85,11 @@ Proof.
   try discriminate; inversion X; intro Q; cdisc Q.
 Qed.
 
-Lemma xlat_all_err_nz : forall T x64 virt avx ops st e, xlat_all T x64 virt avx ops st = inl e -> e <> E_Ok.
+Lemma xlat_all_err_nz : forall T x64 virt iflags avx ops st e, xlat_all T x64 virt iflags avx ops st = inl e -> e <> E_Ok.
 Proof.
   induction ops as [|op ops IH]; intros st e XL; cbn [xlat_all] in XL; [discriminate|].
   destruct op; try discriminate;
-  (destruct (xlat_operand T x64 virt avx _) as [e'|x comb] eqn:X;
+  (destruct (xlat_operand T x64 virt iflags avx _) as [e'|x comb] eqn:X;
    [inversion XL; subst; eapply xlat_operand_err_nz; exact X | eapply IH; exact XL]).
 Qed.
 
@@ -100,7 +100,7 @@ Lemma validate_ok_inv : forall T zq x64 virt inst ops,
   vi_id inst < vt_count T /\
   exists iflags avx sidx scnt st rest,
     nth (N.to_nat (vi_id inst)) (vt_inst T) (0, 0, 0, 0) = (iflags, avx, sidx, scnt) /\
-    xlat_all T x64 virt avx ops init_xstate = inr (st, rest) /\
+    xlat_all T x64 virt iflags avx ops init_xstate = inr (st, rest) /\
     forallb is_none rest = true /\
     (x64 = false -> test (xs_flags st) OF_RegGpq = false) /\
     (scnt = 0 \/ exists s, In s (inst_sigs T sidx scnt) /\ match_sig T zq (mode_bit x64) (xs_sigs st) s = Some false).
@@ -112,7 +112,7 @@ Proof.
   { apply negb_true_iff, N.eqb_neq in LK. congruence. }
   match type of H with (if negb (?e =? E_Ok) then _ else _) = _ => destruct (negb (e =? E_Ok)) eqn:RP end.
   { apply negb_true_iff, N.eqb_neq in RP. congruence. }
-  destruct (xlat_all T x64 virt avx ops _) as [e|[st rest]] eqn:XL.
+  destruct (xlat_all T x64 virt iflags avx ops _) as [e|[st rest]] eqn:XL.
   { exfalso. eapply xlat_all_err_nz; [exact XL|exact H]. }
   destruct (forallb is_none rest) eqn:GAP; cbn [negb] in H; [|cdisc H].
   match type of H with (if negb (?e =? E_Ok) then _ else _) = _ => destruct (negb (e =? E_Ok)) eqn:MD end.
@@ -136,39 +136,39 @@ Proof.
   rewrite N.lor_spec, N.land_spec. destruct (N.testbit g n), (N.testbit b n); reflexivity.
 Qed.
 
-Lemma xlat_all_flags_mono : forall T x64 virt avx g ops st st' rest,
-  xlat_all T x64 virt avx ops st = inr (st', rest) -> N.land (xs_flags st) g = g -> N.land (xs_flags st') g = g.
+Lemma xlat_all_flags_mono : forall T x64 virt iflags avx g ops st st' rest,
+  xlat_all T x64 virt iflags avx ops st = inr (st', rest) -> N.land (xs_flags st) g = g -> N.land (xs_flags st') g = g.
 Proof.
   induction ops as [|op ops IH]; intros st st' rest H F; cbn [xlat_all] in H.
   - inversion H. subst. exact F.
   - destruct op; try (inversion H; subst; exact F);
-    (destruct (xlat_operand T x64 virt avx _) as [e|x comb] eqn:X; [discriminate|];
+    (destruct (xlat_operand T x64 virt iflags avx _) as [e|x comb] eqn:X; [discriminate|];
      eapply IH; [exact H|]; cbn [xs_flags]; apply land_lor_keep; exact F).
 Qed.
 
-Lemma xlat_reg_flags : forall T x64 virt avx rt id x comb,
-  xlat_operand T x64 virt avx (OReg rt id) = XOk x comb -> x_flags x = nthN (vt_rt_opflags T) rt.
+Lemma xlat_reg_flags : forall T x64 virt iflags avx rt id x comb,
+  xlat_operand T x64 virt iflags avx (OReg rt id) = XOk x comb -> x_flags x = nthN (vt_rt_opflags T) rt.
 Proof.
-  intros T x64 virt avx rt id x comb X. unfold xlat_operand in X. cbv zeta in X.
+  intros T x64 virt iflags avx rt id x comb X. unfold xlat_operand in X. cbv zeta in X.
   repeat (match type of X with context [if ?c then _ else _] => destruct c end; cbv beta iota in X);
   try discriminate; inversion X; reflexivity.
 Qed.
 
-Lemma xlat_all_sees_reg : forall T x64 virt avx g rt id post pre st0 st rest,
+Lemma xlat_all_sees_reg : forall T x64 virt iflags avx g rt id post pre st0 st rest,
   (forall o, In o pre -> o <> ONone) ->
   N.land (nthN (vt_rt_opflags T) rt) g = g ->
-  xlat_all T x64 virt avx (pre ++ OReg rt id :: post) st0 = inr (st, rest) ->
+  xlat_all T x64 virt iflags avx (pre ++ OReg rt id :: post) st0 = inr (st, rest) ->
   N.land (xs_flags st) g = g.
 Proof.
   induction pre as [|p pre IH]; intros st0 st rest NN G H.
   - cbn [app xlat_all] in H.
-    destruct (xlat_operand T x64 virt avx (OReg rt id)) as [e|x comb] eqn:X; [discriminate|].
+    destruct (xlat_operand T x64 virt iflags avx (OReg rt id)) as [e|x comb] eqn:X; [discriminate|].
     eapply xlat_all_flags_mono; [exact H|]. cbn [xs_flags].
-    rewrite (xlat_reg_flags _ _ _ _ _ _ _ _ X). rewrite N.lor_comm. apply land_lor_keep. exact G.
+    rewrite (xlat_reg_flags _ _ _ _ _ _ _ _ _ X). rewrite N.lor_comm. apply land_lor_keep. exact G.
   - cbn [app xlat_all] in H.
     assert (Pn : p <> ONone) by (apply NN; left; reflexivity).
     destruct p; try congruence;
-    (destruct (xlat_operand T x64 virt avx _) as [e|x comb] eqn:X; [discriminate|];
+    (destruct (xlat_operand T x64 virt iflags avx _) as [e|x comb] eqn:X; [discriminate|];
      eapply IH; [intros o Ho; apply NN; right; exact Ho|exact G|exact H]).
 Qed.
 
@@ -180,7 +180,7 @@ Proof.
   intros T zq virt inst pre rt id post NN G H.
   destruct (validate_ok_inv _ _ _ _ _ _ H) as (_ & iflags & avx & sidx & scnt & st & rest & _ & XL & _ & M & _).
   specialize (M eq_refl). unfold test in M. apply negb_false_iff, N.eqb_eq in M.
-  pose proof (xlat_all_sees_reg _ _ _ _ _ _ _ _ _ _ _ _ NN G XL) as Q. rewrite M in Q. vm_compute in Q. discriminate Q.
+  pose proof (xlat_all_sees_reg _ _ _ _ _ _ _ _ _ _ _ _ _ NN G XL) as Q. rewrite M in Q. vm_compute in Q. discriminate Q.
 Qed.
 
 (* an accepted instruction has a signature record of the requested mode whose explicit operands it matches one by one *)
@@ -188,7 +188,7 @@ Lemma validate_accept_has_signature : forall T zq x64 virt inst ops,
   validate T zq x64 virt inst ops = E_Ok ->
   exists iflags avx sidx scnt st rest,
     nth (N.to_nat (vi_id inst)) (vt_inst T) (0, 0, 0, 0) = (iflags, avx, sidx, scnt) /\
-    xlat_all T x64 virt avx ops init_xstate = inr (st, rest) /\
+    xlat_all T x64 virt iflags avx ops init_xstate = inr (st, rest) /\
     forallb is_none rest = true /\
     (scnt = 0 \/ exists s, In s (inst_sigs T sidx scnt) /\ test (is_mode s) (mode_bit x64) = true /\
                             match_sig T zq (mode_bit x64) (xs_sigs st) s = Some false).
@@ -465,7 +465,7 @@ Lemma validate_stages_ok : forall T zq x64 virt inst ops iflags avx sidx scnt st
   nth (N.to_nat (vi_id inst)) (vt_inst T) (0, 0, 0, 0) = (iflags, avx, sidx, scnt) ->
   lock_stage (vi_options inst) iflags (first_is_mem ops) = E_Ok ->
   rep_stage (vi_options inst) iflags = E_Ok ->
-  xlat_all T x64 virt avx ops init_xstate = inr (st, rest) ->
+  xlat_all T x64 virt iflags avx ops init_xstate = inr (st, rest) ->
   forallb is_none rest = true ->
   mode_stage x64 (vi_options inst) st = E_Ok ->
   sig_stage T zq x64 st sidx scnt = E_Ok ->
@@ -557,7 +557,7 @@ Lemma db_row_validates : forall T zq x64 virt row inst ops iflags avx sidx scnt 
   vi_id inst = dr_inst row ->
   nth (N.to_nat (dr_inst row)) (vt_inst T) (0, 0, 0, 0) = (iflags, avx, sidx, scnt) ->
   test (dr_mode row) (mode_bit x64) = true ->
-  xlat_all T x64 virt avx ops init_xstate = inr (st, rest) ->
+  xlat_all T x64 virt iflags avx ops init_xstate = inr (st, rest) ->
   forallb is_none rest = true ->
   fits_all (explicit_ops (dr_ops row)) (xs_sigs st) = true ->
   lock_stage (vi_options inst) iflags (first_is_mem ops) = E_Ok ->
@@ -586,7 +586,7 @@ Lemma rep_validates : forall T zq x64 row,
 Proof.
   intros T zq x64 row WF P M R. unfold rep_premises in R.
   destruct (nth (N.to_nat (dr_inst row)) (vt_inst T) (0, 0, 0, 0)) as [[[iflags avx] sidx] scnt] eqn:ROW.
-  destruct (xlat_all T x64 false avx (rep_ops x64 row) init_xstate) as [e|[st rest]] eqn:X; [discriminate|].
+  destruct (xlat_all T x64 false iflags avx (rep_ops x64 row) init_xstate) as [e|[st rest]] eqn:X; [discriminate|].
   apply andb_true_iff in R. destruct R as [R MD]. apply andb_true_iff in R. destruct R as [G F]. apply N.eqb_eq in MD.
   eapply (db_row_validates T zq x64 false row _ (rep_ops x64 row) iflags avx sidx scnt st rest WF P); eauto; cbn [vi_options vi_extra_type];
   auto using lock_stage_plain, rep_stage_plain, evex_stage_plain, avx_stage_plain, extra_stage_none.
@@ -612,7 +612,7 @@ Proof.
   intros T zq x64 row o et ei WF M R. unfold rep_decor_premises in R.
   destruct (nth (N.to_nat (dr_inst row)) (vt_inst T) (0, 0, 0, 0)) as [[[iflags avx] sidx] scnt] eqn:ROW.
   apply andb_true_iff in R. destruct R as [P R].
-  destruct (xlat_all T x64 false avx (rep_ops x64 row) init_xstate) as [e|[st rest]] eqn:X; [discriminate|].
+  destruct (xlat_all T x64 false iflags avx (rep_ops x64 row) init_xstate) as [e|[st rest]] eqn:X; [discriminate|].
   repeat (apply andb_true_iff in R; let H := fresh "S" in destruct R as [R H]).
   repeat match goal with H : (_ =? E_Ok) = true |- _ => apply N.eqb_eq in H end.
   eapply (db_row_validates T zq x64 false row _ (rep_ops x64 row) iflags avx sidx scnt st rest WF P); eauto.
@@ -629,4 +629,125 @@ Proof.
   destruct x64; cbn [mode_bit] in M.
   - rewrite M in R2. apply rep_decor_validates; auto.
   - rewrite M in R1. apply rep_decor_validates; auto.
+Qed.
+
+(* ------------------------------------------------------------------ vector registers 16..31 on an instruction without EVEX encoding: refused, for ALL operand lists *)
+Lemma xlat_all_prefix_ok : forall T x64 virt iflags avx op post pre st0 st rest,
+  (forall o, In o pre -> o <> ONone) -> op <> ONone ->
+  xlat_all T x64 virt iflags avx (pre ++ op :: post) st0 = inr (st, rest) ->
+  exists x comb, xlat_operand T x64 virt iflags avx op = XOk x comb.
+Proof.
+  induction pre as [|p pre IH]; intros st0 st rest NN NO H.
+  - cbn [app xlat_all] in H. destruct op; try congruence;
+    (destruct (xlat_operand T x64 virt iflags avx _) as [e|x comb] eqn:X; [discriminate|eauto]).
+  - cbn [app xlat_all] in H. assert (Pn : p <> ONone) by (apply NN; left; reflexivity).
+    destruct p; try congruence;
+    (match type of H with context [xlat_operand T x64 virt iflags avx ?o] =>
+       destruct (xlat_operand T x64 virt iflags avx o) as [e|x comb] eqn:X end; [discriminate H|];
+     eapply IH; [intros o Ho; apply NN; right; exact Ho|exact NO|exact H]).
+Qed.
+
+Lemma xlat_vec16_err : forall T x64 virt iflags avx rt id,
+  16 <= id < 32 -> RT_Vec128 <= rt <= RT_Vec512 -> test iflags IF_Evex = false ->
+  forall x comb, xlat_operand T x64 virt iflags avx (OReg rt id) <> XOk x comb.
+Proof.
+  intros T x64 virt iflags avx rt id Hid Hrt EV x comb X. unfold xlat_operand in X. cbv zeta in X.
+  destruct (nthN (vt_rt_opflags T) rt =? 0); [discriminate|].
+  assert (A : (id <? VirtIdMin) = true) by (apply N.ltb_lt; unfold VirtIdMin; lia). rewrite A in X.
+  assert (B : (32 <=? id) = false) by (apply N.leb_gt; lia). rewrite B in X.
+  destruct (negb (N.testbit _ id)); [discriminate|].
+  assert (C1 : (16 <=? id) = true) by (apply N.leb_le; lia).
+  assert (C2 : (RT_Vec128 <=? rt) = true) by (apply N.leb_le; lia).
+  assert (C3 : (rt <=? RT_Vec512) = true) by (apply N.leb_le; lia).
+  rewrite C1, C2, C3, EV in X. cbn in X. discriminate.
+Qed.
+
+Lemma validate_refuses_vec16_without_evex : forall T zq x64 virt inst pre rt id post iflags avx sidx scnt,
+  nth (N.to_nat (vi_id inst)) (vt_inst T) (0, 0, 0, 0) = (iflags, avx, sidx, scnt) ->
+  test iflags IF_Evex = false ->
+  (forall o, In o pre -> o <> ONone) -> 16 <= id < 32 -> RT_Vec128 <= rt <= RT_Vec512 ->
+  validate T zq x64 virt inst (pre ++ OReg rt id :: post) <> E_Ok.
+Proof.
+  intros T zq x64 virt inst pre rt id post iflags avx sidx scnt ROW EV NN Hid Hrt H.
+  destruct (validate_ok_inv _ _ _ _ _ _ H) as (_ & iflags' & avx' & sidx' & scnt' & st & rest & ROW' & XL & _).
+  rewrite ROW in ROW'. inversion ROW'. subst.
+  assert (NO : OReg rt id <> ONone) by (intro Q; discriminate Q).
+  destruct (xlat_all_prefix_ok _ _ _ _ _ (OReg rt id) _ _ _ _ _ NN NO XL) as (x & comb & X).
+  exact (xlat_vec16_err _ _ _ _ _ _ _ Hid Hrt EV _ _ X).
+Qed.
+
+(* ------------------------------------------------------------------ padding with empty operands does not change the verdict (the emitters pass 6 operand slots, InstAPI callers
+   the exact count): validate (ops ++ k empty slots) = validate ops *)
+Lemma xlat_all_app_nones : forall T x64 virt iflags avx k ops st,
+  xlat_all T x64 virt iflags avx (ops ++ repeat ONone k) st =
+  match xlat_all T x64 virt iflags avx ops st with
+  | inl e => inl e
+  | inr (st', rest) => inr (st', rest ++ repeat ONone k)
+  end.
+Proof.
+  induction ops as [|op ops IH]; intros st.
+  - cbn [app xlat_all]. destruct k; reflexivity.
+  - cbn [app xlat_all]. destruct op; try reflexivity;
+    (destruct (xlat_operand T x64 virt iflags avx _) as [e|x comb]; [reflexivity|apply IH]).
+Qed.
+
+Lemma forallb_is_none_pad : forall rest k, forallb is_none (rest ++ repeat ONone k) = forallb is_none rest.
+Proof.
+  intros. rewrite forallb_app. assert (forallb is_none (repeat ONone k) = true) by (induction k; cbn; auto).
+  rewrite H. apply andb_true_r.
+Qed.
+
+Lemma nth_repeat_none : forall k i, nth i (repeat ONone k) ONone = ONone.
+Proof. induction k; intros [|i]; cbn; auto. Qed.
+
+Lemma nth_pad : forall (ops : list operand) k i, nth i (ops ++ repeat ONone k) ONone = nth i ops ONone.
+Proof.
+  induction ops as [|o ops IH]; intros k i.
+  - cbn [app]. rewrite nth_repeat_none. destruct i; reflexivity.
+  - destruct i; cbn; auto.
+Qed.
+
+Lemma first_is_mem_pad : forall ops k, first_is_mem (ops ++ repeat ONone k) = first_is_mem ops.
+Proof. intros [|o ops] k; cbn; [destruct k; reflexivity|reflexivity]. Qed.
+
+Lemma validate_padding_invariant : forall T zq x64 virt inst ops k,
+  validate T zq x64 virt inst (ops ++ repeat ONone k) = validate T zq x64 virt inst ops.
+Proof.
+  intros. unfold validate. cbv zeta.
+  destruct (vt_count T <=? vi_id inst); [reflexivity|].
+  destruct (nth (N.to_nat (vi_id inst)) (vt_inst T) (0, 0, 0, 0)) as [[[iflags avx] sidx] scnt].
+  rewrite first_is_mem_pad, xlat_all_app_nones.
+  destruct (negb (lock_stage _ _ _ =? E_Ok)); [reflexivity|].
+  destruct (negb (rep_stage _ _ =? E_Ok)); [reflexivity|].
+  destruct (xlat_all T x64 virt iflags avx ops init_xstate) as [e|[st rest]]; [reflexivity|].
+  rewrite forallb_is_none_pad.
+  destruct (negb (forallb is_none rest)); [reflexivity|].
+  unfold avx_stage. rewrite !nth_pad. reflexivity.
+Qed.
+
+(* ------------------------------------------------------------------ what validate never accepts, for all inputs: undefined ids, operand lists with a gap *)
+Lemma validate_undefined_id : forall T zq x64 virt inst ops, vt_count T <= vi_id inst -> validate T zq x64 virt inst ops = E_InvalidInstruction.
+Proof. intros. unfold validate. cbv zeta. apply N.leb_le in H. rewrite H. reflexivity. Qed.
+
+Lemma xlat_all_stops_at_none : forall T x64 virt iflags avx post pre st0 st rest,
+  (forall o, In o pre -> o <> ONone) ->
+  xlat_all T x64 virt iflags avx (pre ++ ONone :: post) st0 = inr (st, rest) -> rest = ONone :: post.
+Proof.
+  induction pre as [|p pre IH]; intros st0 st rest NN H.
+  - cbn [app xlat_all] in H. inversion H. reflexivity.
+  - cbn [app xlat_all] in H. assert (Pn : p <> ONone) by (apply NN; left; reflexivity).
+    destruct p; try congruence;
+    (match type of H with context [xlat_operand T x64 virt iflags avx ?o] =>
+       destruct (xlat_operand T x64 virt iflags avx o) as [e|x comb] eqn:X end; [discriminate H|];
+     eapply IH; [intros o Ho; apply NN; right; exact Ho|exact H]).
+Qed.
+
+Lemma validate_refuses_gap : forall T zq x64 virt inst pre post op,
+  (forall o, In o pre -> o <> ONone) -> In op post -> op <> ONone ->
+  validate T zq x64 virt inst (pre ++ ONone :: post) <> E_Ok.
+Proof.
+  intros T zq x64 virt inst pre post op NN I NO H.
+  destruct (validate_ok_inv _ _ _ _ _ _ H) as (_ & iflags & avx & sidx & scnt & st & rest & _ & XL & G & _).
+  rewrite (xlat_all_stops_at_none _ _ _ _ _ _ _ _ _ _ NN XL) in G. cbn [forallb is_none andb] in G.
+  pose proof (forallb_In _ _ _ G op I) as Q. destruct op; try discriminate. congruence.
 Qed.
